@@ -11,7 +11,9 @@ written to coq/gen/ScopeCfg.v (token level, rustlex).
                the trace replay and as a side condition)
   compiler.rs  fn try_statement   : does the catch clause start with an `emit_byte(OpCode::PopExcHandler ..)`?
                (as shipped it does: C08 class catch_pops_outer; the model needs it only to emit the same bytes)
-  vm.rs        fn capture_upvalue : walk predicate `v > loc_addr`, reuse predicate `v == loc_addr`
+  vm.rs        fn capture_upvalue : walk predicate `v > loc_addr`, reuse predicate `v == loc_addr`; one parameter (the slot); the walk
+               starts at the head of the active fiber's list and no other fiber's list is touched
+  vm.rs        fn closure_impl    : local descriptor -> capture_upvalue(slot_base + index), inherited -> the running closure's upvalue
   object.rs    fn close_upvalues  : predicate `v >= index_addr`
   compiler.rs  fn add_upvalue     : dedup test compares index AND is_local
   compiler.rs  fn emit_scope_end  : chooses CloseUpvalue when `is_captured`, else Pop
@@ -19,7 +21,7 @@ written to coq/gen/ScopeCfg.v (token level, rustlex).
   vm.rs        fn close_upvalue_impl : close_upvalues(stack_size - 1) with the size taken BEFORE the pop
   vm.rs        fn return_impl     : close_upvalues_for_frame() unconditionally (not under a frames.len() test), before the frame is
                popped and the stack truncated
-The last eight are the shapes Upvalues.v / ScopeComp.v transliterate; `shapes_known = true` is a side
+The last nine are the shapes Upvalues.v / ScopeComp.v transliterate; `shapes_known = true` is a side
 condition of props/C06.v (fail closed: an unrecognised shape makes it false).
 
 Stand-alone use (scratch worktrees): VERIF_REPO=/tmp/wt translate_c06.py"""
@@ -102,6 +104,25 @@ def facts():
     c = fn_body(vm, "capture_upvalue")
     if not (has_seq(c, ["|", "v", "|", "v", ">", "loc_addr"]) and has_seq(c, ["|", "v", "|", "v", "==", "loc_addr"])):
         unknown.append("capture_upvalue: predicates `v > loc_addr` / `v == loc_addr` not found")
+    # capture_upvalue: the walk ALWAYS starts at the head of the ACTIVE fiber's own list (capture_in of Upvalues.v walks the list
+    # of the fiber it is given, from its head), and the only input is the slot: no second parameter (a resume point / hint / cached
+    # upvalue may belong to another fiber's list - an inherited upvalue can be open on another fiber's stack)
+    ci = find_seq(vm, ["fn", "capture_upvalue"])
+    sig = [t.text for t in vm[ci:ci + 14]]
+    if sig[:10] != ["fn", "capture_upvalue", "(", "&", "mut", "self", ",", "location", ":", "usize"] or sig[10:12] not in ([")", "->"], [",", ")"]):
+        unknown.append("capture_upvalue: signature `(&mut self, location: usize)` not found")
+    if not (has_seq(c, ["let", "mut", "prev_upvalue", "=", "None", ";"]) and
+            has_seq(c, ["let", "mut", "upvalue", "=", "self", ".", "active_fiber", "(", ")", ".", "open_upvalues", ";"]) and
+            c.count("open_upvalues") == 2 and has_seq(c, ["self", ".", "active_fiber_mut", "(", ")", ".", "open_upvalues", "=", "Some"])):
+        unknown.append("capture_upvalue: walk `prev_upvalue = None; upvalue = self.active_fiber().open_upvalues` (head of the active "
+                       "fiber's list, the only list touched) not found")
+    # closure_impl: a local descriptor captures slot_base + index of the CURRENT frame of the active fiber; an inherited one copies
+    # the running closure's upvalue (runtime_ups of ScopeLangProofs / closure creation of ScopeComp.v)
+    ki = fn_body(vm, "closure_impl")
+    if not (has_seq(ki, ["self", ".", "capture_upvalue", "(", "slot_base", "+", "index", ")"]) and ki.count("capture_upvalue") == 1 and
+            has_seq(ki, ["let", "slot_base", "=", "self", ".", "active_fiber", "(", ")", ".", "current_frame", "(", ")", ".", "unwrap", "(", ")", ".", "slot_base", ";"]) and
+            has_seq(ki, [".", "closure", ".", "upvalues", ".", "borrow", "(", ")", "[", "index", "]"])):
+        unknown.append("closure_impl: `if is_local { capture_upvalue(slot_base + index) } else { current closure's upvalues[index] }` not found")
     cl = fn_body(obj, "close_upvalues")
     if not has_seq(cl, ["|", "v", "|", "v", ">=", "index_addr"]):
         unknown.append("close_upvalues: predicate `v >= index_addr` not found")
